@@ -274,4 +274,396 @@ theorem trimesh_moments (hs : LawfulSqrt sq) (ρ : K) (hρ : 0 ≤ ρ) (ts : Lis
         rw [p1, p3]; field_simp
       rw [list_parallel_axis_com _ p ⟨Gx / A, Gy / A⟩ hx hy, p4, p1]
 
+/-- **`(a + b) - b = a`** (2-D), exactly in mass, centre of mass and inertia, whenever the remaining mass and inertia are not
+below the code's clamping threshold `f32::EPSILON` (`b` may be massless or `zero()`). -/
+theorem sub_add_cancel (hs : LawfulSqrt sq) (a b : MP2 K) (hb : 0 ≤ b.invMass)
+    (hm : 1 / 8388608 ≤ massOf a) (hi : 1 / 8388608 ≤ inertiaOf a ∨ inertiaOf a = 0) :
+    letI := fieldNum K sq
+    massOf ((a.add b).sub b) = massOf a ∧ ((a.add b).sub b).com = a.com ∧
+      inertiaOf ((a.add b).sub b) = inertiaOf a := by
+  have hma : 0 < massOf a := lt_of_lt_of_le (by norm_num) hm
+  have hia : 0 < a.invMass := inv_pos.1 hma
+  have hza : ¬ IsZeroMP a := fun h => hia.ne' h.2.2.1
+  by_cases hzb : IsZeroMP b
+  · -- `a + 0 = a`, `a - 0 = a`
+    have e1 : @MP2.add K (fieldNum K sq) a b = a := by
+      unfold MP2.add
+      rw [if_neg (by rw [isZero_iff]; exact hza), if_pos (by rw [isZero_iff]; exact hzb)]
+    rw [e1]
+    have e2 : @MP2.sub K (fieldNum K sq) a b = a := by
+      unfold MP2.sub
+      rw [if_pos (by simp only [Bool.or_eq_true, isZero_iff]; exact Or.inr hzb)]
+    rw [e2]; exact ⟨rfl, rfl, rfl⟩
+  · have hmb : 0 ≤ massOf b := inv_nonneg.2 hb
+    rw [add_general sq a b hza hzb]
+    simp only
+    have hM : 0 < a.invMass⁻¹ + b.invMass⁻¹ := by
+      have : 0 < a.invMass⁻¹ := hma
+      have : 0 ≤ b.invMass⁻¹ := hmb
+      linarith
+    rw [sub_general sq _ b (fun h => by simp only [IsZeroMP] at h; exact (inv_pos.2 hM).ne' h.2.2.1) hzb]
+    simp only [massOf, inertiaOf, inv_inv] at *
+    set m1 := a.invMass⁻¹ with hm1
+    set m2 := b.invMass⁻¹ with hm2
+    set I1 := (a.invI * a.invI)⁻¹ with hI1
+    set I2 := (b.invI * b.invI)⁻¹ with hI2
+    set cx := (a.com.x * m1 + b.com.x * m2) * (m1 + m2)⁻¹ with hcx
+    set cy := (a.com.y * m1 + b.com.y * m2) * (m1 + m2)⁻¹ with hcy
+    set Is := I1 + m1 * ((cx - a.com.x) ^ 2 + (cy - a.com.y) ^ 2) + (I2 + m2 * ((cx - b.com.x) ^ 2 + (cy - b.com.y) ^ 2)) with hIs
+    have hI1n : 0 ≤ I1 := inv_nonneg.2 (mul_self_nonneg _)
+    have hI2n : 0 ≤ I2 := inv_nonneg.2 (mul_self_nonneg _)
+    have hIsn : 0 ≤ Is := by positivity
+    have hnm : (if m1 + m2 - m2 < 1 / 8388608 then 0 else m1 + m2 - m2) = m1 := by
+      rw [add_sub_cancel_right, if_neg (not_lt.2 hm)]
+    have hM0 : m1 + m2 ≠ 0 := hM.ne'
+    have hm10 : m1 ≠ 0 := hma.ne'
+    have hcx' : (cx * (m1 + m2) - b.com.x * m2) * m1⁻¹ = a.com.x := by rw [hcx]; field_simp; ring
+    have hcy' : (cy * (m1 + m2) - b.com.y * m2) * m1⁻¹ = a.com.y := by rw [hcy]; field_simp; ring
+    simp only [hnm, hcx', hcy', sqrt_roundtrip sq hs Is hIsn]
+    have hi0 : Is + (m1 + m2) * ((a.com.x - cx) ^ 2 + (a.com.y - cy) ^ 2)
+        - (I2 + m2 * ((a.com.x - b.com.x) ^ 2 + (a.com.y - b.com.y) ^ 2)) = I1 := by
+      rw [hIs, hcx, hcy]; field_simp; ring
+    rw [hi0]
+    have hclamp : (if I1 < 1 / 8388608 then 0 else I1) = I1 := by
+      rcases hi with h | h
+      · rw [if_neg (not_lt.2 h)]
+      · rw [h]; simp
+    rw [hclamp, sqrt_roundtrip sq hs I1 hI1n]
+    exact ⟨trivial, trivial, rfl⟩
+
+/-- `a + zero() = a` and `zero() + b = b`, exactly (structurally), as coded. -/
+theorem add_zero_neutral (a : MP2 K) :
+    letI := fieldNum K sq
+    a.add MP2.zero = a ∧ MP2.zero.add a = a := by
+  have hz : @MP2.isZero K (fieldNum K sq) (@MP2.zero K (fieldNum K sq)) = true := by
+    rw [isZero_iff]; exact ⟨rfl, rfl, rfl, rfl⟩
+  constructor
+  · unfold MP2.add
+    split_ifs with h1
+    · rw [isZero_iff] at h1
+      obtain ⟨e1, e2, e3, e4⟩ := h1
+      rcases a with ⟨⟨x, y⟩, m, i⟩
+      simp only at e1 e2 e3 e4
+      subst e1 e2 e3 e4
+      rfl
+    · rfl
+  · unfold MP2.add
+    rw [if_pos hz]
+
+theorem add_invMass_nonneg (a b : MP2 K) (ha : 0 ≤ a.invMass) (hb : 0 ≤ b.invMass) :
+    0 ≤ (@MP2.add K (fieldNum K sq) a b).invMass := by
+  unfold MP2.add
+  split_ifs
+  · exact hb
+  · exact ha
+  · simp only [inv_spec]
+    have := inv_nonneg.2 ha; have := inv_nonneg.2 hb
+    positivity
+
+theorem sameMoments_of (a b : MP2 K) (h1 : massOf a = massOf b) (h2 : a.com.x * massOf a = b.com.x * massOf b)
+    (h3 : a.com.y * massOf a = b.com.y * massOf b) (h4 : ∀ p, momentAbout a p = momentAbout b p) : SameMoments a b :=
+  ⟨h1, h2, h3, h4⟩
+
+/-- `+` is commutative up to moments. -/
+theorem add_comm_moments (hs : LawfulSqrt sq) (a b : MP2 K) (ha : 0 ≤ a.invMass) (hb : 0 ≤ b.invMass) :
+    letI := fieldNum K sq
+    SameMoments (a.add b) (b.add a) := by
+  obtain ⟨h1, h2, h3, h4⟩ := add_moments sq hs a b ha hb
+  obtain ⟨g1, g2, g3, g4⟩ := add_moments sq hs b a hb ha
+  exact ⟨by rw [h1, g1]; ring, by rw [h2, g2]; ring, by rw [h3, g3]; ring, fun p => by rw [h4, g4]; ring⟩
+
+/-- `+` is associative up to moments. -/
+theorem add_assoc_moments (hs : LawfulSqrt sq) (a b c : MP2 K) (ha : 0 ≤ a.invMass) (hb : 0 ≤ b.invMass) (hc : 0 ≤ c.invMass) :
+    letI := fieldNum K sq
+    SameMoments ((a.add b).add c) (a.add (b.add c)) := by
+  have hab := add_invMass_nonneg sq a b ha hb
+  have hbc := add_invMass_nonneg sq b c hb hc
+  obtain ⟨h1, h2, h3, h4⟩ := add_moments sq hs a b ha hb
+  obtain ⟨g1, g2, g3, g4⟩ := add_moments sq hs b c hb hc
+  obtain ⟨k1, k2, k3, k4⟩ := add_moments sq hs _ c hab hc
+  obtain ⟨l1, l2, l3, l4⟩ := add_moments sq hs a _ ha hbc
+  exact ⟨by rw [k1, l1, h1, g1]; ring, by rw [k2, l2, h2, g2]; ring, by rw [k3, l3, h3, g3]; ring,
+    fun p => by rw [k4, l4, h4, g4]; ring⟩
+
+/-- equal moments with a non-zero mass mean equal observables (mass, centre of mass, inertia about it) -/
+theorem sameMoments_obs (a b : MP2 K) (h : SameMoments a b) (hm : massOf a ≠ 0) :
+    massOf a = massOf b ∧ a.com = b.com ∧ inertiaOf a = inertiaOf b := by
+  obtain ⟨h1, h2, h3, h4⟩ := h
+  have ex : a.com.x = b.com.x := by
+    rw [← h1] at h2; exact mul_right_cancel₀ hm h2
+  have ey : a.com.y = b.com.y := by
+    rw [← h1] at h3; exact mul_right_cancel₀ hm h3
+  refine ⟨h1, ?_, ?_⟩
+  · rcases a with ⟨⟨x, y⟩, m, i⟩; rcases b with ⟨⟨x', y'⟩, m', i'⟩
+    simp only at ex ey; subst ex ey; rfl
+  · have := h4 a.com
+    simp only [momentAbout, ex, ey, sub_self] at this
+    simpa using this
+
+/-- **covariance of `transform_by`** (2-D): mass and inertia are unchanged, the centre of mass is moved by `m`, and
+the second moment about a transported point equals the original second moment (isometry invariance). -/
+theorem transformBy_covariant (a : MP2 K) (m : Iso2 K) (hu : m.re * m.re + m.im * m.im = 1) :
+    letI := fieldNum K sq
+    massOf (a.transformBy m) = massOf a ∧ inertiaOf (a.transformBy m) = inertiaOf a ∧
+    (a.transformBy m).com = m.act a.com ∧
+    ∀ p : V2 K, momentAbout (a.transformBy m) (m.act p) = momentAbout a p := by
+  refine ⟨rfl, rfl, rfl, ?_⟩
+  intro p
+  simp only [momentAbout, MP2.transformBy, Iso2.act, Iso2.rot, V2.add, massOf, inertiaOf]
+  have : (m.re * p.x - m.im * p.y + m.t.x - (m.re * a.com.x - m.im * a.com.y + m.t.x)) ^ 2
+       + (m.im * p.x + m.re * p.y + m.t.y - (m.im * a.com.x + m.re * a.com.y + m.t.y)) ^ 2
+       = (p.x - a.com.x) ^ 2 + (p.y - a.com.y) ^ 2 := by
+    linear_combination ((p.x - a.com.x) ^ 2 + (p.y - a.com.y) ^ 2) * hu
+  rw [this]
+
+/-- `transform_by` commutes with `+` up to moments: the transform of a sum is the sum of the transforms. -/
+theorem transformBy_add (hs : LawfulSqrt sq) (a b : MP2 K) (ha : 0 ≤ a.invMass) (hb : 0 ≤ b.invMass)
+    (m : Iso2 K) (hu : m.re * m.re + m.im * m.im = 1) :
+    letI := fieldNum K sq
+    SameMoments ((a.add b).transformBy m) ((a.transformBy m).add (b.transformBy m)) := by
+  obtain ⟨h1, h2, h3, h4⟩ := add_moments sq hs a b ha hb
+  obtain ⟨g1, g2, g3, g4⟩ := add_moments sq hs (@MP2.transformBy K (fieldNum K sq) a m) (@MP2.transformBy K (fieldNum K sq) b m) ha hb
+  obtain ⟨s1, _, s3, s4⟩ := transformBy_covariant sq (@MP2.add K (fieldNum K sq) a b) m hu
+  obtain ⟨a1, _, a3, a4⟩ := transformBy_covariant sq a m hu
+  obtain ⟨b1, _, b3, b4⟩ := transformBy_covariant sq b m hu
+  refine ⟨by rw [s1, g1, h1, a1, b1], ?_, ?_, ?_⟩
+  · rw [g2, s1, s3, a1, b1, a3, b3]
+    simp only [Iso2.act, Iso2.rot, V2.add]
+    linear_combination m.re * h2 - m.im * h3 + m.t.x * h1
+  · rw [g3, s1, s3, a1, b1, a3, b3]
+    simp only [Iso2.act, Iso2.rot, V2.add]
+    linear_combination m.im * h2 + m.re * h3 + m.t.y * h1
+  · intro q
+    rw [← act_invAct sq m hu q, s4, g4, a4, b4, h4]
+
+theorem foldl_add_moments (hs : LawfulSqrt sq) (ps : List (MP2 K)) (h : ∀ a ∈ ps, 0 ≤ a.invMass)
+    (acc : MP2 K) (hacc : 0 ≤ acc.invMass) :
+    letI := fieldNum K sq
+    0 ≤ (ps.foldl MP2.add acc).invMass ∧
+    massOf (ps.foldl MP2.add acc) = massOf acc + totMass ps ∧
+    (ps.foldl MP2.add acc).com.x * massOf (ps.foldl MP2.add acc) = acc.com.x * massOf acc + totFx ps ∧
+    (ps.foldl MP2.add acc).com.y * massOf (ps.foldl MP2.add acc) = acc.com.y * massOf acc + totFy ps ∧
+    ∀ p : V2 K, momentAbout (ps.foldl MP2.add acc) p = momentAbout acc p + totMoment ps p := by
+  induction ps generalizing acc with
+  | nil => simp [totMass, totFx, totFy, totMoment, hacc]
+  | cons a l ih =>
+    have ha : 0 ≤ a.invMass := h a (by simp)
+    obtain ⟨i0, i1, i2, i3, i4⟩ := ih (fun b hb => h b (by simp [hb])) (@MP2.add K (fieldNum K sq) acc a)
+      (add_invMass_nonneg sq acc a hacc ha)
+    obtain ⟨h1, h2, h3, h4⟩ := add_moments sq hs acc a hacc ha
+    simp only [List.foldl_cons, totMass, totFx, totFy, totMoment, List.map_cons, List.sum_cons] at *
+    refine ⟨i0, by rw [i1, h1]; ring, by rw [i2, h2]; ring, by rw [i3, h3]; ring, fun p => by rw [i4, h4]; ring⟩
+
+/-- **`Sum` = fold of `+`** up to moments, for every finite list of parts with non-negative masses
+(zero-mass members and `zero()` included). -/
+theorem sum_eq_fold_add (hs : LawfulSqrt sq) (ps : List (MP2 K)) (h : ∀ a ∈ ps, 0 ≤ a.invMass) :
+    letI := fieldNum K sq
+    SameMoments (MP2.sum ps) (ps.foldl MP2.add MP2.zero) := by
+  obtain ⟨s1, s2, s3, s4⟩ := sum_moments sq hs ps h
+  obtain ⟨_, f1, f2, f3, f4⟩ := foldl_add_moments sq hs ps h (@MP2.zero K (fieldNum K sq)) (le_refl _)
+  have z1 : massOf (@MP2.zero K (fieldNum K sq)) = 0 := by simp [massOf, MP2.zero]
+  have z2 : ∀ p, momentAbout (@MP2.zero K (fieldNum K sq)) p = 0 := by
+    intro p; simp [momentAbout, massOf, inertiaOf, MP2.zero]
+  refine ⟨by rw [s1, f1, z1]; ring, by rw [s2, f2, z1]; ring, by rw [s3, f3, z1]; ring, fun p => by rw [s4, f4, z2]; ring⟩
+
+theorem foldl_polyAcc (gc : V2 K) (es : List (V2 K × V2 K)) (acc : V2 K × K) :
+    letI := fieldNum K sq
+    (es.foldl (polyAcc gc) acc).2 = acc.2 + (es.map fun e => triArea ⟨e.1, e.2, gc⟩).sum ∧
+    (es.foldl (polyAcc gc) acc).1.x = acc.1.x + (es.map fun e => (triCenter ⟨e.1, e.2, gc⟩).x * triArea ⟨e.1, e.2, gc⟩).sum ∧
+    (es.foldl (polyAcc gc) acc).1.y = acc.1.y + (es.map fun e => (triCenter ⟨e.1, e.2, gc⟩).y * triArea ⟨e.1, e.2, gc⟩).sum := by
+  have h3 : ((mkRat 3 1 : ℚ) : K) = 3 := by norm_num
+  induction es generalizing acc with
+  | nil => simp
+  | cons a l ih =>
+    simp only [List.foldl_cons, List.map_cons, List.sum_cons]
+    obtain ⟨h1, h2, h3'⟩ := ih (@polyAcc K (fieldNum K sq) gc acc a)
+    rw [h1, h2, h3']
+    simp only [polyAcc, triangle_center_eq, V2.add, V2.smul, V2.sdiv, fieldNum_lit, h3]
+    refine ⟨by ring, by ring, by ring⟩
+
+theorem foldl_polyAcc0 (gc : V2 K) (es : List (V2 K × V2 K)) :
+    letI := fieldNum K sq
+    (es.foldl (polyAcc gc) (V2.zero, 0)).2 = (es.map fun e => triArea ⟨e.1, e.2, gc⟩).sum ∧
+    (es.foldl (polyAcc gc) (V2.zero, 0)).1.x = (es.map fun e => (triCenter ⟨e.1, e.2, gc⟩).x * triArea ⟨e.1, e.2, gc⟩).sum ∧
+    (es.foldl (polyAcc gc) (V2.zero, 0)).1.y = (es.map fun e => (triCenter ⟨e.1, e.2, gc⟩).y * triArea ⟨e.1, e.2, gc⟩).sum := by
+  have := foldl_polyAcc sq gc es (@V2.zero K (fieldNum K sq), 0)
+  simpa [V2.zero] using this
+
+/-- moments of a fan of (corrected) `from_triangle` parts with common first vertex `c`, about `c` -/
+theorem fan_tot (hs : LawfulSqrt sq) (ρ : K) (hρ : 0 ≤ ρ) (c : V2 K) (es : List (V2 K × V2 K)) :
+    letI := fieldNum K sq
+    totMoment (es.map fun e => fromTriangle ρ ⟨c, e.1, e.2⟩) c =
+      (es.map fun e => triUnitInertia ⟨c, e.1, e.2⟩ * triArea ⟨c, e.1, e.2⟩).sum * ρ := by
+  induction es with
+  | nil => simp [totMoment]
+  | cons a l ih =>
+    obtain ⟨o1, o2, o3⟩ := from_triangle_obs sq hs ρ hρ ⟨c, a.1, a.2⟩
+    simp only [totMoment, List.map_cons, List.sum_cons] at ih ⊢
+    rw [ih]
+    simp only [momentAbout, o1, o2, o3]
+    have e := triangle_centroid_inertia sq ⟨c, a.1, a.2⟩
+    simp only [V2.sub, V2.normSq, V2.dot] at e
+    linear_combination (-(@triArea K (fieldNum K sq) ⟨c, a.1, a.2⟩) * ρ) * e
+
+/-- moments of the family of `from_triangle` parts of a fan `(v_i, v_{i+1}, g)` -/
+theorem fanG_tot (hs : LawfulSqrt sq) (ρ : K) (hρ : 0 ≤ ρ) (g : V2 K) (es : List (V2 K × V2 K)) :
+    letI := fieldNum K sq
+    totMass (es.map fun e => fromTriangle ρ ⟨e.1, e.2, g⟩) = (es.map fun e => triArea ⟨e.1, e.2, g⟩).sum * ρ ∧
+    totFx (es.map fun e => fromTriangle ρ ⟨e.1, e.2, g⟩) = (es.map fun e => (triCenter ⟨e.1, e.2, g⟩).x * triArea ⟨e.1, e.2, g⟩).sum * ρ ∧
+    totFy (es.map fun e => fromTriangle ρ ⟨e.1, e.2, g⟩) = (es.map fun e => (triCenter ⟨e.1, e.2, g⟩).y * triArea ⟨e.1, e.2, g⟩).sum * ρ := by
+  induction es with
+  | nil => simp [totMass, totFx, totFy]
+  | cons a l ih =>
+    obtain ⟨i1, i2, i3⟩ := ih
+    obtain ⟨o1, o2, o3⟩ := from_triangle_obs sq hs ρ hρ ⟨a.1, a.2, g⟩
+    simp only [totMass, totFx, totFy, List.map_cons, List.sum_cons] at i1 i2 i3 ⊢
+    rw [i1, i2, i3, o1, o2]
+    refine ⟨by ring, by ring, by ring⟩
+
+/-- **convex polygon = Σ fan triangles.**  `g` is the vertex average and `es` the closed chain of edges
+`(v_i, v_{i+1})`.  Whenever the computed area is non-zero, the result of `from_convex_polygon` has the mass and first
+moment of the fan `(v_i, v_{i+1}, g)` (the triangles `convex_polygon_area_and_center_of_mass` sums), and its inertia is
+the total second moment, about the centre of mass, of the fan `(com, v_i, v_{i+1})` of corrected `from_triangle` parts. -/
+theorem convex_polygon_eq_fans (hs : LawfulSqrt sq) (ρ : K) (hρ : 0 ≤ ρ) (g : V2 K) (es : List (V2 K × V2 K)) :
+    letI := fieldNum K sq
+    let ac := polyAreaComCore g es
+    let r := fromConvexPolygonCore ρ ac es
+    ac.1 ≠ 0 →
+      r.com = ac.2 ∧
+      massOf r = totMass (es.map fun e => fromTriangle ρ ⟨e.1, e.2, g⟩) ∧
+      r.com.x * massOf r = totFx (es.map fun e => fromTriangle ρ ⟨e.1, e.2, g⟩) ∧
+      r.com.y * massOf r = totFy (es.map fun e => fromTriangle ρ ⟨e.1, e.2, g⟩) ∧
+      inertiaOf r = totMoment (es.map fun e => fromTriangle ρ ⟨ac.2, e.1, e.2⟩) ac.2 := by
+  intro ac r hne
+  obtain ⟨f1, f2, f3⟩ := foldl_polyAcc0 sq g es
+  obtain ⟨p1, p2, p3⟩ := fanG_tot sq hs ρ hρ g es
+  have hac : ac = ((es.map fun e => @triArea K (fieldNum K sq) ⟨e.1, e.2, g⟩).sum,
+      (⟨(es.map fun e => (@triCenter K (fieldNum K sq) ⟨e.1, e.2, g⟩).x * @triArea K (fieldNum K sq) ⟨e.1, e.2, g⟩).sum
+          / (es.map fun e => @triArea K (fieldNum K sq) ⟨e.1, e.2, g⟩).sum,
+        (es.map fun e => (@triCenter K (fieldNum K sq) ⟨e.1, e.2, g⟩).y * @triArea K (fieldNum K sq) ⟨e.1, e.2, g⟩).sum
+          / (es.map fun e => @triArea K (fieldNum K sq) ⟨e.1, e.2, g⟩).sum⟩ : V2 K)) := by
+    have h1 : ac.1 = (es.map fun e => @triArea K (fieldNum K sq) ⟨e.1, e.2, g⟩).sum := by
+      simp only [ac, polyAreaComCore]
+      rw [apply_ite Prod.fst]; simp only [ite_self]; exact f1
+    have hne' : (es.map fun e => @triArea K (fieldNum K sq) ⟨e.1, e.2, g⟩).sum ≠ 0 := h1 ▸ hne
+    simp only [ac, polyAreaComCore, fieldNum_neq', f1]
+    rw [if_neg (by simpa using hne')]
+    simp only [V2.sdiv, f1, f2, f3]
+  set A := (es.map fun e => @triArea K (fieldNum K sq) ⟨e.1, e.2, g⟩).sum with hA
+  set Gx := (es.map fun e => (@triCenter K (fieldNum K sq) ⟨e.1, e.2, g⟩).x * @triArea K (fieldNum K sq) ⟨e.1, e.2, g⟩).sum with hGx
+  set Gy := (es.map fun e => (@triCenter K (fieldNum K sq) ⟨e.1, e.2, g⟩).y * @triArea K (fieldNum K sq) ⟨e.1, e.2, g⟩).sum with hGy
+  have hA0 : A ≠ 0 := by have := hne; rw [hac] at this; exact this
+  have p4 := fan_tot sq hs ρ hρ ac.2 es
+  have hpn : ∀ a ∈ es.map (fun e => @fromTriangle K (fieldNum K sq) ρ ⟨ac.2, e.1, e.2⟩), 0 ≤ a.invMass := by
+    intro a ha
+    simp only [List.mem_map] at ha
+    obtain ⟨e, _, rfl⟩ := ha
+    have := (from_triangle_obs sq hs ρ hρ ⟨ac.2, e.1, e.2⟩).1
+    have hAr := triangle_area_nonneg sq hs ⟨ac.2, e.1, e.2⟩
+    have h2 : 0 ≤ massOf (@fromTriangle K (fieldNum K sq) ρ ⟨ac.2, e.1, e.2⟩) := by rw [this]; positivity
+    exact inv_nonneg.1 h2
+  have hJn := totMoment_nonneg _ hpn ac.2
+  rw [p4] at hJn
+  have hr : r = @MP2.new K (fieldNum K sq) ac.2 (ac.1 * ρ) (@polyItot K (fieldNum K sq) ac.2 es * ρ) := by
+    simp only [r, fromConvexPolygonCore, fieldNum_neq']
+    rw [if_neg (by simpa using hne)]
+  have hit : @polyItot K (fieldNum K sq) ac.2 es =
+      (es.map fun e => @triUnitInertia K (fieldNum K sq) ⟨ac.2, e.1, e.2⟩ * @triArea K (fieldNum K sq) ⟨ac.2, e.1, e.2⟩).sum := by
+    simp only [polyItot, foldl_add_map, zero_add]
+  rw [hr, hit, p1, p2, p3, p4]
+  simp only [MP2.new, massOf, inertiaOf, inv_spec, inv_inv, fieldNum_sqrt]
+  rw [sqrt_roundtrip sq hs _ hJn]
+  rw [hac]
+  refine ⟨trivial, rfl, ?_, ?_, rfl⟩
+  · simp only; field_simp
+  · simp only; field_simp
+
+/-- **closed form of `from_convex_polygon`** for a counter-clockwise polygon `first :: rest` whose vertex average `g` and
+computed centre of mass see every edge counter-clockwise (true for every convex CCW polygon): the area is the shoelace
+area, the centre of mass is `Σ (v_i+v_{i+1})(v_i×v_{i+1}) / (3 Σ v_i×v_{i+1})`, and the inertia is `ρ` times the
+signed-triangle polar moment about the centre of mass. -/
+theorem convex_polygon_closed_form (hs : LawfulSqrt sq) (ρ : K) (hρ : 0 ≤ ρ) (first : V2 K) (rest : List (V2 K))
+    (g : V2 K) :
+    letI := fieldNum K sq
+    let es := cyclicPairs first (first :: rest)
+    let ac := polyAreaComCore g es
+    SeesCCW g es → shoelace es ≠ 0 →
+      ac.1 = shoelace es / 2 ∧
+      ac.2 = ⟨shoelaceFx es / (3 * shoelace es), shoelaceFy es / (3 * shoelace es)⟩ ∧
+      massOf (fromConvexPolygonCore ρ ac es) = ρ * (shoelace es / 2) ∧
+      (fromConvexPolygonCore ρ ac es).com = ac.2 ∧
+      (SeesCCW ac.2 es → inertiaOf (fromConvexPolygonCore ρ ac es) = ρ * shoelaceJ ac.2 es) := by
+  intro es ac hg hsh
+  obtain ⟨f1, f2, f3⟩ := foldl_polyAcc0 sq g es
+  obtain ⟨t1, t2, t3⟩ := path_telescope g first rest first
+  -- areas of the fan about `g`
+  have harea : ∀ e ∈ es, @triArea K (fieldNum K sq) ⟨e.1, e.2, g⟩ = cr ⟨e.1.x - g.x, e.1.y - g.y⟩ ⟨e.2.x - g.x, e.2.y - g.y⟩ / 2 := by
+    intro e he
+    rw [triangle_area_eq sq hs]
+    have : @V2.perp K (fieldNum K sq) (@V2.sub K (fieldNum K sq) e.2 e.1) (@V2.sub K (fieldNum K sq) g e.1)
+        = cr ⟨e.1.x - g.x, e.1.y - g.y⟩ ⟨e.2.x - g.x, e.2.y - g.y⟩ := by
+      simp only [V2.perp, V2.sub, cr]; ring
+    rw [this, abs_of_nonneg (hg e he)]
+  have hA : (es.map fun e => @triArea K (fieldNum K sq) ⟨e.1, e.2, g⟩).sum = shoelace es / 2 := by
+    rw [List.map_congr_left harea]
+    have : (es.map fun e => cr ⟨e.1.x - g.x, e.1.y - g.y⟩ ⟨e.2.x - g.x, e.2.y - g.y⟩ / 2).sum
+        = (es.map fun e => cr ⟨e.1.x - g.x, e.1.y - g.y⟩ ⟨e.2.x - g.x, e.2.y - g.y⟩).sum / 2 := by
+      exact sum_map_div es _ 2
+    rw [this, t1]; ring
+  have hGx : (es.map fun e => (@triCenter K (fieldNum K sq) ⟨e.1, e.2, g⟩).x * @triArea K (fieldNum K sq) ⟨e.1, e.2, g⟩).sum
+      = shoelaceFx es / 6 := by
+    have hterm : ∀ e ∈ es, (@triCenter K (fieldNum K sq) ⟨e.1, e.2, g⟩).x * @triArea K (fieldNum K sq) ⟨e.1, e.2, g⟩
+        = (e.1.x + e.2.x + g.x) * cr ⟨e.1.x - g.x, e.1.y - g.y⟩ ⟨e.2.x - g.x, e.2.y - g.y⟩ / 6 := by
+      intro e he
+      rw [harea e he, triangle_center_eq]; ring
+    rw [List.map_congr_left hterm, sum_map_div, t2]; ring
+  have hGy : (es.map fun e => (@triCenter K (fieldNum K sq) ⟨e.1, e.2, g⟩).y * @triArea K (fieldNum K sq) ⟨e.1, e.2, g⟩).sum
+      = shoelaceFy es / 6 := by
+    have hterm : ∀ e ∈ es, (@triCenter K (fieldNum K sq) ⟨e.1, e.2, g⟩).y * @triArea K (fieldNum K sq) ⟨e.1, e.2, g⟩
+        = (e.1.y + e.2.y + g.y) * cr ⟨e.1.x - g.x, e.1.y - g.y⟩ ⟨e.2.x - g.x, e.2.y - g.y⟩ / 6 := by
+      intro e he
+      rw [harea e he, triangle_center_eq]; ring
+    rw [List.map_congr_left hterm, sum_map_div, t3]; ring
+  rw [hA] at f1; rw [hGx] at f2; rw [hGy] at f3
+  have hne2 : shoelace es / 2 ≠ 0 := by
+    intro h; apply hsh; linarith
+  have hac1 : ac.1 = shoelace es / 2 := by
+    simp only [ac, polyAreaComCore]
+    rw [apply_ite Prod.fst]; simp only [ite_self]; exact f1
+  have hac2 : ac.2 = ⟨shoelaceFx es / (3 * shoelace es), shoelaceFy es / (3 * shoelace es)⟩ := by
+    simp only [ac, polyAreaComCore, fieldNum_neq', f1]
+    rw [if_neg (by simpa using hne2)]
+    simp only [V2.sdiv, f2, f3]
+    congr 1 <;> field_simp <;> ring
+  have hcore := convex_polygon_eq_fans sq hs ρ hρ g es
+  simp only at hcore
+  obtain ⟨c1, c2, _, _, c5⟩ := hcore (by rw [show (@polyAreaComCore K (fieldNum K sq) g es).1 = ac.1 from rfl, hac1]; exact hne2)
+  refine ⟨hac1, hac2, ?_, c1, ?_⟩
+  · rw [c2, (fanG_tot sq hs ρ hρ g es).1, hA]; ring
+  · intro hc
+    rw [c5, fan_tot sq hs ρ hρ]
+    have hterm : ∀ e ∈ es, @triUnitInertia K (fieldNum K sq) ⟨ac.2, e.1, e.2⟩ * @triArea K (fieldNum K sq) ⟨ac.2, e.1, e.2⟩
+        = cr ⟨e.1.x - ac.2.x, e.1.y - ac.2.y⟩ ⟨e.2.x - ac.2.x, e.2.y - ac.2.y⟩ *
+          (((e.1.x - ac.2.x) ^ 2 + (e.1.y - ac.2.y) ^ 2) + ((e.1.x - ac.2.x) * (e.2.x - ac.2.x) + (e.1.y - ac.2.y) * (e.2.y - ac.2.y))
+            + ((e.2.x - ac.2.x) ^ 2 + (e.2.y - ac.2.y) ^ 2)) / 12 := by
+      intro e he
+      rw [triangle_area_eq sq hs, triangle_unit_inertia_about_a]
+      have : @V2.perp K (fieldNum K sq) (@V2.sub K (fieldNum K sq) e.1 ac.2) (@V2.sub K (fieldNum K sq) e.2 ac.2)
+          = cr ⟨e.1.x - ac.2.x, e.1.y - ac.2.y⟩ ⟨e.2.x - ac.2.x, e.2.y - ac.2.y⟩ := by
+        simp only [V2.perp, V2.sub, cr]
+      rw [this, abs_of_nonneg (hc e he)]
+      simp only [V2.normSq, V2.dot, V2.sub]
+      ring
+    rw [List.map_congr_left hterm]
+    simp only [shoelaceJ]; ring
+
+/-- `from_convex_polygon` on a non-empty vertex list is the core computation with `g` = the vertex average; the empty slice
+is the `unwrap` panic. -/
+theorem from_convex_polygon_unfold (ρ : K) (first : V2 K) (rest : List (V2 K)) :
+    letI := fieldNum K sq
+    fromConvexPolygon ρ (first :: rest) =
+      some (fromConvexPolygonCore ρ (polyAreaComCore (polyGc (first :: rest)) (cyclicPairs first (first :: rest)))
+        (cyclicPairs first (first :: rest))) ∧
+    fromConvexPolygon ρ ([] : List (V2 K)) = none := ⟨rfl, rfl⟩
+
 end C13
